@@ -4,6 +4,9 @@
 //        processing instructions, references: value oracle + every prefix), mut (mutations), deep (nesting 1000), roundtrip (random element trees), variant (handle histories),
 //        wide (documents and trees with 4,000-20,000 elements: flat / tabular / moderately nested empty elements, repeated siblings with content, generated valid documents with
 //        many children, a long flat document after a deep one on the same Parser object: accepted, same tree, toString -> parse identity)
+// Build flavours: the only private state used is the reference count of an Xml::Variant payload (state class shared / unshared of toElement() in the variant mode, and the
+// diagnosis in the probe of the operator= finding). With -DVERIF_NO_PRIVATE the class comes from the harness's own record of which handles were copied from one another
+// (Handle::pid / hidden / kidsShared); all parse / round-trip / independence oracles are public API in both flavours.
 #include "h_doc_common.hpp"
 #include <nstd/Document/Xml.hpp>
 #include <nstd/Error.hpp>
@@ -141,7 +144,7 @@ static PResult parseGuarded(const char* text, size_t n, int api, Xml::Element& o
     }
   }
   if (memcmp(e.p, text, n) != 0 || e.p[n] != 0) { char k[160]; snprintf(k, sizeof k, "%s/input-modified", prefix); fail(k, "the parser wrote into the caller's text"); }
-  cnt("parses"); cnt("parse_bytes", (long)n);
+  cnt("parses"); cnt("ops"); cnt("parse_bytes", (long)n);
   if (r.ok) cnt("parse_accepted");
   else {
     cnt("parse_rejected");
@@ -161,7 +164,7 @@ static void roundTrip(const Xml::Element& e, const XNode* m, int api, Cmp& cmp, 
   guardOn(20, "Xml.toString/nonterminating", "Xml.toString/memory-growth", 0);
   String text = withHeader ? Xml::toString(e) : e.toString();
   guardOff();
-  cnt("serialised_bytes", (long)text.length());
+  cnt("serialised_bytes", (long)text.length()); cnt("ops");
   Xml::Element back;
   PResult r = parseGuarded((const char*)text, text.length(), api, back, "reparse");
   if (r.skipped) return;
@@ -683,7 +686,23 @@ static void roundtripMode() {
 }
 
 // ================================================================================================ Xml::Variant handle histories: copies are independent of their source
-struct Handle { Xml::Variant* v; int kind; Bytes text; XNode* elem; };   // kind 0 null, 1 text, 2 element
+struct Handle { Xml::Variant* v; int kind; Bytes text; XNode* elem; u64 pid; bool hidden, kidsShared; };   // kind 0 null, 1 text, 2 element
+// pid / hidden: the harness's own record of which handles got their payload from one another (copy-construct / copy-assign share it, every other way of giving a value
+// makes a new one); hidden = the payload is (also) held by a value nested inside another handle's element (assignment of an own child while the parent was shared).
+// kidsShared = the element was cloned from / is the source of a clone of a shared payload, so the values nested in it are held by both payloads.
+// It is what the VERIF_NO_PRIVATE flavour derives the toElement state class (shared / unshared) from; with access to private state it is only compared with the reference count.
+static u64 g_pid = 0;
+static bool sharedByRecord(const Vec<Handle>& hs, size_t a) { if (hs[a].hidden) return true; for (size_t i = 0; i < hs.n; ++i) if (i != a && hs[i].pid == hs[a].pid) return true; return false; }
+static bool isSharedElement(const Vec<Handle>& hs, size_t a) {
+  bool rec = sharedByRecord(hs, a);
+#ifndef VERIF_NO_PRIVATE
+  bool real = hs[a].v->data->ref > 1;
+  cnt(real == rec ? "share_record_agrees_with_refcount" : "share_record_differs_from_refcount");
+  return real;
+#else
+  return rec;
+#endif
+}
 static void checkHandle(const Handle& h, size_t i, const char* after) {
   const Xml::Variant& v = *h.v;
   char key[200];
@@ -712,30 +731,32 @@ static void variantMode() {
       if (hs.n >= 12 && (kind == 0 || kind == 1)) kind = 9;
       switch (kind) {
       case 0: { // new value: null / text / element
-        Handle h; h.elem = 0; h.kind = (int)r.below(3); u64 cl = 0; long lw = 0;
+        Handle h; h.elem = 0; h.pid = ++g_pid; h.hidden = h.kidsShared = false; h.kind = (int)r.below(3); u64 cl = 0; long lw = 0;
         if (h.kind == 0) { setctx("Xml.Variant()"); hist.addf("h%lu = Variant()\n", (unsigned long)hs.n); h.v = new Xml::Variant(); }
         else if (h.kind == 1) { genRtBytes(r, h.text, false, cl); setctx("Xml.Variant(String)"); hist.addf("h%lu = Variant(text %lu bytes)\n", (unsigned long)hs.n, (unsigned long)h.text.size()); h.v = new Xml::Variant(S(h.text)); }
         else { h.elem = genTree(r, 0, 2, cl, lw); setctx("Xml.Variant(Element)"); hist.addf("h%lu = Variant(element %ld nodes)\n", (unsigned long)hs.n, countNodes(h.elem)); Xml::Element e; buildElement(h.elem, e, r); h.v = new Xml::Variant(e); }
         hs.push(h); snprintf(after, sizeof after, "Xml.Variant.construct"); cnt("op_new"); break; }
       case 1: { // copy-construct
         setctx("Xml.Variant(Variant)"); hist.addf("h%lu = Variant(h%lu)\n", (unsigned long)hs.n, (unsigned long)a);
-        Handle h; h.elem = 0; h.kind = 0; h.v = new Xml::Variant(*hs[a].v); setModel(h, hs[a].kind, &hs[a].text, hs[a].elem); hs.push(h); ++shared;
+        Handle h; h.elem = 0; h.kind = 0; h.pid = hs[a].pid; h.hidden = hs[a].hidden; h.kidsShared = hs[a].kidsShared; h.v = new Xml::Variant(*hs[a].v); setModel(h, hs[a].kind, &hs[a].text, hs[a].elem); hs.push(h); ++shared;
         snprintf(after, sizeof after, "Xml.Variant.copy-construct"); cnt("op_copy_construct"); break; }
       case 2: { // copy-assign (incl. self)
         if (xAssign) break;
         setctxf("Xml.Variant.operator=(Variant)%s", a == b ? "/self" : ""); hist.addf("h%lu = h%lu\n", (unsigned long)a, (unsigned long)b);
-        *hs[a].v = *hs[b].v; if (a != b) { Bytes tx = hs[b].text; XNode* el = hs[b].elem ? hs[b].elem->clone() : 0; setModel(hs[a], hs[b].kind, &tx, el); delete el; } ++shared;
+        *hs[a].v = *hs[b].v; hs[a].pid = hs[b].pid; hs[a].hidden = hs[b].hidden; hs[a].kidsShared = hs[b].kidsShared; if (a != b) { Bytes tx = hs[b].text; XNode* el = hs[b].elem ? hs[b].elem->clone() : 0; setModel(hs[a], hs[b].kind, &tx, el); delete el; } ++shared;
         snprintf(after, sizeof after, "Xml.Variant.operator=(Variant)"); cnt("op_copy_assign"); if (a == b) cnt("op_self_assign"); break; }
       case 3: { // assign text
         Bytes tx; u64 cl = 0; genRtBytes(r, tx, false, cl);
         setctx("Xml.Variant.operator=(String)"); hist.addf("h%lu = text(%lu bytes)\n", (unsigned long)a, (unsigned long)tx.size());
-        *hs[a].v = S(tx); setModel(hs[a], 1, &tx, 0); mutatedShared = mutatedShared || shared > 0;
+        *hs[a].v = S(tx); hs[a].pid = ++g_pid; hs[a].hidden = hs[a].kidsShared = false; setModel(hs[a], 1, &tx, 0); mutatedShared = mutatedShared || shared > 0;
         snprintf(after, sizeof after, "Xml.Variant.operator=(String)"); cnt("op_assign_text"); break; }
       case 4: case 5: { // mutate through toElement()
-        bool wasElem = hs[a].kind == 2; bool sharedNow = wasElem && hs[a].v->data->ref > 1;
+        bool wasElem = hs[a].kind == 2; bool sharedNow = wasElem && isSharedElement(hs, a);
         if (sharedNow && xToElem) break;
         setctxf("Xml.Variant.toElement/%s", !wasElem ? "non-element" : sharedNow ? "shared" : "unshared"); hist.addf("h%lu.toElement() mutate (%s)\n", (unsigned long)a, !wasElem ? "non-element" : sharedNow ? "shared" : "unshared");
         Xml::Element& e = hs[a].v->toElement();
+        if (sharedNow) for (size_t q = 0; q < hs.n; ++q) if (hs[q].pid == hs[a].pid) hs[q].kidsShared = true;   // the clone's nested values are copies that share with the source's
+        if (!wasElem || sharedNow) { hs[a].pid = ++g_pid; hs[a].hidden = false; if (!wasElem) hs[a].kidsShared = false; }   // a new payload of its own
         if (!wasElem) { XNode* fresh = new XNode(false); setModel(hs[a], 2, 0, fresh); delete fresh; if (e.type.length() || e.attributes.size() || e.content.size()) fail("Xml.Variant.toElement/non-element/fresh-element-not-empty", "toElement() of a non-element value did not yield an empty element"); }
         XNode* m = hs[a].elem;
         int what = (int)r.below(4);
@@ -750,7 +771,7 @@ static void variantMode() {
         setctx("Xml.Variant.operator=(Variant)/own-child"); hist.addf("h%lu = h%lu.content[0]\n", (unsigned long)a, (unsigned long)a);
         const Xml::Variant& child = *((const Xml::Variant&)*hs[a].v).toElement().content.begin();
         XNode* k = hs[a].elem->kids[0]->clone();
-        *hs[a].v = child;
+        { bool parentShared = sharedByRecord(hs, a) || hs[a].kidsShared; *hs[a].v = child; hs[a].pid = ++g_pid; hs[a].hidden = parentShared; hs[a].kidsShared = false; }   // the child's payload; the old parent keeps holding it when another handle keeps the parent alive
         if (k->isText) setModel(hs[a], 1, &k->text, 0); else setModel(hs[a], 2, 0, k); delete k;
         snprintf(after, sizeof after, "Xml.Variant.operator=(Variant)/own-child"); cnt("op_assign_own_child"); break; }
       case 7: { // copy a whole element holding values (List<Variant> copy) and mutate the copy
@@ -770,7 +791,7 @@ static void variantMode() {
       const char* saved = (const char*)ctx; (void)saved;
       setctxf("%s/check-all-handles", after);
       for (size_t i = 0; i < hs.n; ++i) checkHandle(hs[i], i, after);
-      cnt("variant_ops"); cnt("variant_handle_checks", (long)hs.n);
+      cnt("variant_ops"); cnt("ops"); cnt("variant_handle_checks", (long)hs.n);
     }
     setctx("Xml.Variant.destructor");
     while (hs.n) { delete hs[hs.n - 1].v; delete hs[hs.n - 1].elem; hs.pop(); }
@@ -791,8 +812,14 @@ static int probe(const char* key) {
   if (!strcmp(key, K_ASSIGN)) {
     setctx("Xml.Variant.operator=(Variant)");
     Xml::Variant* a = new Xml::Variant(String("one")); Xml::Variant* b = new Xml::Variant(String("two"));
-    *a = *b; long ref = (long)b->data->ref; delete a;
+    *a = *b;
+#ifndef VERIF_NO_PRIVATE   // diagnosis through the reference count; without it the double release shows as a heap-use-after-free in toString() below / a leak of "one"
+    long ref = (long)b->data->ref;
+#endif
+    delete a;
+#ifndef VERIF_NO_PRIVATE
     if (ref != 2) fail(K_ASSIGN, "after a = b the shared payload has reference count %ld instead of 2: it is released twice and the old payload of a leaks", ref);
+#endif
     String s = b->toString(); delete b; return 0; }
   if (!strcmp(key, K_TOELEM)) {
     setctx("Xml.Variant.toElement/shared");
